@@ -452,7 +452,7 @@ func run(sp spec, root string, seed int64) *annh.Sc {
 // other two torrents keep announcing through the same transport. Every datagram that reaches the tracker is compared with
 // the first one of its transaction (annh.Trk `rtx` lines).
 func runRtx(sp spec, sc *annh.Sc, root string, seed int64) *annh.Sc {
-	sc.Cmin, sc.Lat = sp.cmin, 1500
+	sc.Cmin, sc.Lat, sc.Slk = sp.cmin, 1500, 2000 // retransmission deadline: 15 s + 3.5 s
 	env, err := annh.NewEnv(root, func(c *torrent.Config) {
 		c.TrackerMinAnnounceInterval = time.Duration(sp.cmin) * time.Millisecond
 		c.TrackerStopTimeout = 800 * time.Millisecond
@@ -511,7 +511,7 @@ func runRtx(sp spec, sc *annh.Sc, root string, seed int64) *annh.Sc {
 		sc.Tor[i].PID = pid
 	}
 	// the retransmission is due 15 s after the first datagram; leave room for its answer and one more announce
-	dl := time.Now().Add(17500 * time.Millisecond)
+	dl := time.Now().Add(19500 * time.Millisecond)
 	for time.Now().Before(dl) {
 		time.Sleep(250 * time.Millisecond)
 		sc.Line("tick", nil)
